@@ -270,6 +270,27 @@ def main():
         finally:
             for od in dirs[1:]:
                 _sh.rmtree(od, ignore_errors=True)
+        # derived outputs after load_state depend on the checkpoint only: a sampler that already served checkpoint k of run A and then loads
+        # checkpoint k of run B returns the same posterior() as a fresh sampler loading B_k
+        import re as _re
+        runs = {}
+        for sd in (21, 22):
+            dd = os.path.join(tmp, f"eq{sd}")
+            sx = Sampler(pt, ll, n_dim=2, n_particles=24, random_state=sd, output_dir=dd)
+            sx.run(n_total=96, progress=False, save_every=1)
+            runs[sd] = {int(_re.match(r".*_(\d+)\.state$", f).group(1)): os.path.join(dd, f) for f in os.listdir(dd) if _re.match(r".*_(\d+)\.state$", f)}
+        reader = Sampler(pt, ll, n_dim=2, n_particles=24, random_state=23, output_dir=os.path.join(tmp, "eqr"))
+        for k in sorted(set(runs[21]) & set(runs[22]))[1::2][:3]:
+            reader.load_state(runs[21][k])
+            reader.posterior()
+            reader.load_state(runs[22][k])
+            fresh = Sampler(pt, ll, n_dim=2, n_particles=24, random_state=23, output_dir=os.path.join(tmp, "eqf"))
+            fresh.load_state(runs[22][k])
+            a, b = reader.posterior(trim_importance_weights=False, return_logw=True), fresh.posterior(trim_importance_weights=False, return_logw=True)
+            tried += 1
+            if any(np.shape(x) != np.shape(y) or not np.array_equal(np.asarray(x), np.asarray(y)) for x, y in zip(a, b)) or not eq(snap(reader)[1]["u"][0], snap(fresh)[1]["u"][0]):
+                return {"reproduced": True, "detail": f"a sampler that had served checkpoint {k} of another run returns a different posterior() after load_state(checkpoint {k}) than a "
+                        f"freshly constructed sampler loading the same file: the restore depends on what the object held before", "input": {"probe": "reused-reader", "k": k}}
         # saving does not consume process resources: open file descriptors before and after 40 checkpoints
         if os.path.isdir("/proc/self/fd"):
             s3 = Sampler(pt, ll, n_dim=2, n_particles=16, random_state=3, output_dir=os.path.join(tmp, "fds"))
